@@ -152,6 +152,7 @@ json generate(uint64_t seed, uint64_t idx, int tier)
 	ApiGen ag;
 	ag.getters = true;
 	ag.comments = true;
+	ag.flip_title_case = flags != 0;
 	int maxops = tier ? 30 : 16;
 	int n = (int)r.range(3, maxops);
 	std::vector<std::vector<OptRef>> refs;
